@@ -31,6 +31,11 @@ def VStore.forCheck (s : VStore) (h : Nat) : Option Overlay := (s.at h).map Over
 def VStore.reset (s : VStore) : VStore :=
   { s with working := match s.versions with | [] => [] | (_, m) :: _ => m }
 
+/-- `AppState.ResetTo(h)` (`LoadVersionForOverwriting(h)`): the versions above `h` are deleted and the working tree is the
+version `h`; refused when `h` is not retained -/
+def VStore.resetTo (s : VStore) (h : Nat) : Option VStore :=
+  (s.at h).map fun m => { s with versions := s.versions.filter (fun v => decide (v.1 ≤ h)), working := m }
+
 /-- the range iteration of the canonical working tree (`IterateOverAccounts` …): its whole content, in key order -/
 def VStore.iter (s : VStore) : KV := s.working
 
